@@ -342,6 +342,16 @@ def Wave.lineTimeSec (w : Wave) (P : Nat) : Option (Nat × Nat) :=
 def Wave.durationSec (w : Wave) (P : Nat) : Option (Nat × Nat) :=
   (w.lineTimeNs P).map fun ns => timesNat (secondsOf ns.toNat) (numBlocks w.numBoundaries P)
 
+/-! ### the C02 kymograph geometries (the domain the theorems `kymo_geometry_ranges` quantify over) -/
+
+/-- one pixel of `k` samples: `k − 1` codes 1, then the boundary code 2 -/
+def geomPixel (k : Nat) : List Nat := List.replicate (k - 1) 1 ++ [2]
+/-- one line: `P` pixels, then `dead` discarded samples -/
+def geomLine (k P dead : Nat) : List Nat := (List.replicate P (geomPixel k)).flatten ++ List.replicate dead 0
+/-- a kymograph info wave as in C02: lead-in, `lines` lines, tail; `take n` of it is a truncated one -/
+def geomKymo (lead k P dead lines tail : Nat) : List Nat :=
+  List.replicate lead 0 ++ ((List.replicate lines (geomLine k P dead)).flatten ++ List.replicate tail 0)
+
 /-! ### scans -/
 
 /-- `Scan.timestamps`: frames of `L` lines of `P` pixels; `flip` = the fast axis has the higher
@@ -470,6 +480,7 @@ def mkWave? (st dt iw : String) : Option Wave := do
 /-- ops (a wave is `start dt [codes]`):
   `c03.mean [a…]`                 `timestamp_mean`, then `T/F` = every intermediate fits int64, then #splits
   `c03.meanrows w [r;r;…]`        `timestamp_mean(axis=1)`, then `T/F` = every intermediate fits int64, then #splits
+  `c03.geom lead k P dead lines tail n`  the info wave of that kymograph geometry, truncated after `n` samples
   `c03.delta dt`                  `int(1e9 / sample_rate)`: exact binary64 model, then Lean's `Float`
   `c03.kts   <wave> P`            `Kymo.timestamps`, then `T/F` = every intermediate of the per-pixel mean fits int64, then #splits
   `c03.krex  <wave> P`            `line_timestamp_ranges()` followed by the δ used
@@ -498,6 +509,10 @@ def handle : List String → Option String
       | some v =>
         some (showIntList v ++ " " ++ showBool ((tsMeanRowsTrace rows w).all fitsI64) ++ " " ++
           toString (intMeanRowsSplits (rows.map fun r => r.map (· - listMin rows.flatten)) w))
+  | ["c03.geom", lead, k, p, dead, lines, tail, trunc] => do
+    let lead ← nat? lead; let k ← nat? k; let p ← nat? p; let dead ← nat? dead
+    let lines ← nat? lines; let tail ← nat? tail; let trunc ← nat? trunc
+    if k = 0 then none else some (showList toString ((geomKymo lead k p dead lines tail).take trunc))
   | ["c03.delta", dt] => do
     let dt ← int? dt
     if dt ≤ 0 then none else some (toString (deltaTs dt) ++ " " ++ toString (deltaTsFloat dt))
